@@ -82,6 +82,7 @@ func init() {
 			{Fn: "H_try1", Tier: "quick", Reach: []string{"end"}},
 			{Fn: "H_try2", Tier: "quick", Reach: []string{"end"}},
 			{Fn: "H_same_object", Tier: "quick", Reach: []string{"end"}},
+			{Fn: "H_catch_order", Tier: "quick", Reach: []string{"end"}},
 		},
 		Rule:        rule + "; try/catch/finally template inside a loop inside a function with selectors for how the try body (5), the handler (5) and finally (2) exit and which class is thrown (5, incl. a Go-level error), all 250 combinations by solver-driven case split; marker trace and return value compared with the 40-line reference model of B.3",
 		Assumptions: []string{"a Go-level error (1 % 0) is a Throwable that also matches catch (Exception)"},
@@ -133,6 +134,7 @@ func init() {
 		ID:  "C08",
 		Pkg: "verif/harness/c08",
 		Runs: []RunDef{
+			{Fn: "H_iface_chain", Fuel: 30_000_000, Tier: "quick", Reach: []string{"end"}},
 			{Fn: "H_hierarchy", Params: map[string]int{"implbits": 16}, Fuel: 30_000_000, Tier: "quickonly", Reach: []string{"end"}},
 			{Fn: "H_hierarchy", Params: map[string]int{"implbits": 64}, Fuel: 30_000_000, Tier: "thorough", Reach: []string{"end"}},
 		},
@@ -145,6 +147,7 @@ func init() {
 		Pkg: "verif/harness/c19",
 		Runs: []RunDef{
 			{Fn: "H_two", Fuel: 20_000_000, Tier: "quick", Reach: []string{"end"}},
+			{Fn: "H_members", Fuel: 20_000_000, Tier: "quick", Reach: []string{"end"}},
 			{Fn: "H_history", Params: k(2), Fuel: 20_000_000, Tier: "quick", Reach: []string{"end"}},
 			{Fn: "H_history", Params: k(3), Fuel: 20_000_000, Tier: "quick", Reach: []string{"end"}},
 			{Fn: "H_history", Params: k(4), Fuel: 30_000_000, Tier: "thorough", Reach: []string{"end"}},
@@ -222,6 +225,7 @@ func init() {
 			{Fn: "H_alone", Fuel: 30_000_000, Tier: "quick", Reach: []string{"end"}},
 			{Fn: "H_two", Fuel: 30_000_000, Tier: "quick", Sched: true, Preempt: 2, Reach: []string{"end"}, NativeTwin: "N_reentrant"},
 			{Fn: "H_two_locals", Fuel: 30_000_000, Tier: "quick", Sched: true, Preempt: 2, Reach: []string{"end"}, NativeTwin: "N_reentrant"},
+			{Fn: "H_two_middleware", Fuel: 30_000_000, Tier: "quick", Sched: true, Preempt: 2, Reach: []string{"end"}, NativeTwin: "N_reentrant"},
 			{Fn: "H_two", Fuel: 30_000_000, Tier: "thorough", Sched: true, Preempt: 3, Reach: []string{"end"}, NativeTwin: "N_reentrant"},
 			{Fn: "H_two_locals", Fuel: 30_000_000, Tier: "thorough", Sched: true, Preempt: 3, Reach: []string{"end"}, NativeTwin: "N_reentrant"},
 		},
